@@ -4,6 +4,8 @@
 #include <cstdio>
 #include <cstdlib>
 #include <asmjit/core.h>
+// ghost objects of class types without default constructors (contract headers compiled as C++)
+#define C_GHOST_OBJ(T, name) alignas(T) static unsigned char name##_storage[sizeof(T)]; static T& name = *reinterpret_cast<T*>(name##_storage)
 #include <cstring>
 #include <cstdarg>
 #include <string>
